@@ -15,6 +15,7 @@ Variable disk : docs.
 Variable rank : path -> nat.
 Variable M : nat.
 Hypothesis pick_in : forall l x, In x (pick l) <-> In x l.
+Hypothesis pick_nodup : forall l, NoDup l -> NoDup (pick l).
 Hypothesis rank_lt : forall p, rank p < M.
 Hypothesis disk_resp : forall p c, disk p = Some c -> content_respects rank p c.
 
@@ -33,7 +34,8 @@ Record GInvP (P : fid -> Prop) (w : world) : Prop := {
           w_files w t <> None /\ rk w t < rk w f /\ (P f \/ (In f (w_rev w t) /\ w_an w t <> None));
   gp_failed : forall q g, In g (w_failed w q) -> w_files w g <> None;
   gp_uris : forall f p, w_uris w f = Some p -> exists c, w_files w f = Some (p, c);
-  gp_none : forall f, w_an w f = None -> w_imports w f = []
+  gp_none : forall f, w_an w f = None -> w_imports w f = [];
+  gp_nd : forall f, NoDup (w_imports w f)
 }.
 
 Lemma GInvP_weaken : forall (P Q : fid -> Prop) w, (forall x, P x -> Q x) -> GInvP P w -> GInvP Q w.
@@ -66,6 +68,7 @@ Record SInv1 (cu : docs) (w : world) (g : fid) (a : analysis) : Prop := {
   s_parsed : a_state a = Parsed -> w_imports w g = [];
   s_diags : a_state a = Typechecked ->
             same_diags (a_tdiags a) (expect_c cu (expect_t cu M) (a_src a));
+  s_nodup : a_state a = Typechecked -> NoDup (a_tdiags a);
   s_targets : a_state a = Typechecked ->
               forall q, In q (fst (reach cu (c_imports (a_src a)))) ->
               exists t, live_id w q = Some t /\ w_an w t <> None /\ In g (w_rev w t) /\ In t (w_imports w g);
@@ -203,6 +206,7 @@ Proof.
     + intros q g H. apply NE. apply (gp_failed _ _ G q g H).
     + intros f q H. destruct (gp_uris _ _ G f q H) as [c0 H0]. exists c0. apply FX. exact H0.
     + exact (gp_none _ _ G).
+    + exact (gp_nd _ _ G).
   - intros ->. constructor; fold w'.
     + unfold w'. cbn. lia.
     + exact FX.
@@ -364,7 +368,8 @@ Proof.
         - intros f0 p0 H. unfold upd in H. destruct (Nat.eqb_spec f0 t) as [->|]; [|apply gp_uris0; exact H].
           inv H. eauto.
         - intros f0 H. unfold upd. destruct (Nat.eqb_spec f0 f) as [->|]; [|apply gp_none0; exact H].
-          exfalso. rewrite Sa, wk_an0 in H. contradiction. }
+          exfalso. rewrite Sa, wk_an0 in H. contradiction.
+        - intros f0. unfold upd. destruct (Nat.eqb_spec f0 f) as [->|]; [apply NoDup_add_set|]; apply gp_nd0. }
       assert (Im4 : forall x, In x (w_imports w4 f) <-> x = t \/ In x (w_imports w f)).
       { intros x. unfold w4, w3, w2. cbn. rewrite upd_eq. rewrite In_add_set. rewrite Si. tauto. }
       assert (Rv4 : forall t0 g, In g (w_rev w4 t0) <-> (t0 = t /\ g = f) \/ In g (w_rev w t0)).
@@ -806,9 +811,17 @@ Proof.
         (forall d, In d ds <-> exists t, In t pre /\ In d (contrib cu w5 t)) /\
         (forall t g, In g (w_rev w' t) -> In g (w_rev w5 t) \/ (lvi w' g /\ w_uris w' g <> None)) /\
         (forall q g, In g (w_failed w' q) -> In g (w_failed w5 q) \/ (lvi w' g /\ w_uris w' g <> None)) /\
-        (forall g, w_an w' g <> None -> w_an w5 g <> None \/ (lvi w' g /\ w_uris w' g <> None))).
+        (forall g, w_an w' g <> None -> w_an w5 g <> None \/ (lvi w' g /\ w_uris w' g <> None)) /\
+        NoDup ds /\
+        (forall d, In d ds -> exists t, In t pre /\ In t (w_imports w5 f) /\
+                                         (d = DImpParse (path_of w5 t) \/ d = DImpType (path_of w5 t)))).
+    assert (PInj : forall t t', In t (w_imports w5 f) -> In t' (w_imports w5 f) -> path_of w5 t = path_of w5 t' -> t = t').
+    { intros t t' Ht Ht' Hp. destruct (fp_binv0 f _ fp_f0) as [_ Bf]. cbn [a_src] in Bf.
+      destruct (Bf t Ht) as [q [_ Lq]]. destruct (Bf t' Ht') as [q' [_ Lq']].
+      destruct (live_id_file w5 q t fp_ginv0 Lq) as [c1 F1]. destruct (live_id_file w5 q' t' fp_ginv0 Lq') as [c2 F2].
+      unfold path_of in Hp. rewrite F1, F2 in Hp. subst q'. congruence. }
     assert (HL : LI (pick (w_imports w5 f)) (fold_left (loop_step (typecheck cf pick disk k)) (pick (w_imports w5 f)) (Ok (w5, [])))).
-    { apply fold_left_inv_in.
+    { apply fold_left_inv_nodup; [apply pick_nodup; apply (gp_nd _ _ fp_ginv0)| |].
       - (* initially *)
         exists w5, []. split; [reflexivity|]. repeat (split; [solve [auto using fext_refl]|]).
         split.
@@ -817,9 +830,10 @@ Proof.
           destruct (fp_binv0 g ag Hg) as [[p Hp] _]. exists p, (a_src ag). auto. }
         repeat (split; [solve [auto]|]).
         split; [intros d; split; [intros []|intros [t [[] _]]]|].
-        split; [intros t g H; left; exact H|]. split; [intros q g H; left; exact H|]. intros g H; left; exact H.
+        split; [intros t g H; left; exact H|]. split; [intros q g H; left; exact H|]. split; [intros g H; left; exact H|].
+        split; [constructor|intros d []].
       - (* one iteration *)
-        intros pre t st Htin [w' [ds [-> [G' [L' [B' [X' [Af' [If' [Pend [TcO [Stab [Pres [Rv [Fl [Im [Ur [Pb [Lg [Dsc [RvN [FlN AnN]]]]]]]]]]]]]]]]]]]]]].
+        intros pre t st Htin Hnpre [w' [ds [-> [G' [L' [B' [X' [Af' [If' [Pend [TcO [Stab [Pres [Rv [Fl [Im [Ur [Pb [Lg [Dsc [RvN [FlN [AnN [NDs Shp]]]]]]]]]]]]]]]]]]]]]]]].
         apply (proj1 (pick_in _ _)) in Htin.
         assert (Htin' : In t (w_imports w' f)) by (rewrite If'; exact Htin).
         destruct (gp_imp _ _ G' f t Htin') as [Ft [Rkt [[]|[Rvt Ant]]]].
@@ -834,6 +848,7 @@ Proof.
           - exfalso. destruct (gp_imp _ _ fp_ginv0 f t Htin) as [A _]. contradiction. }
         assert (Ct : contrib cu w5 t = imp_diag cu (expect_t cu M) q).
         { unfold contrib, path_of. rewrite F5t. reflexivity. }
+        assert (Pt5 : path_of w5 t = q) by (unfold path_of; rewrite F5t; reflexivity).
         destruct (is_perr (a_src at_)) eqn:Ep.
         + (* the import has parse errors *)
           exists w', (ds ++ [DImpParse q]). split; [reflexivity|].
@@ -843,7 +858,15 @@ Proof.
             intros Hin. apply in_app_or in Hin. destruct Hin as [Hin|[<-|[]]]; [contradiction|].
             destruct A2 as [p [c [A2 A2']]]. rewrite F5t in A2. inv A2. congruence. }
           repeat (split; [solve [auto]|]).
-          split; [|split; [exact RvN|split; [exact FlN|exact AnN]]].
+          assert (Fresh : forall d, (d = DImpParse q \/ d = DImpType q) -> ~ In d ds).
+          { intros d Hd Hin. destruct (Shp d Hin) as [t' [H1 [H2 H3]]].
+            assert (path_of w5 t' = q) by (destruct Hd as [->| ->]; destruct H3 as [H3|H3]; congruence).
+            assert (t' = t) by (apply PInj; auto; congruence). subst t'. contradiction. }
+          split; [|split; [exact RvN|split; [exact FlN|split; [exact AnN|split]]]].
+          2:{ apply NoDup_snoc_gen; [exact NDs|]. apply Fresh. left. reflexivity. }
+          2:{ intros d Hd. apply in_app_or in Hd. destruct Hd as [Hd|[<-|[]]].
+              - destruct (Shp d Hd) as [t' [H1 [H2 H3]]]. exists t'. split; [apply in_or_app; left; exact H1|auto].
+              - exists t. split; [apply in_or_app; right; left; reflexivity|]. split; [exact Htin|left; congruence]. }
           intros d. rewrite in_app_iff. rewrite Dsc. split.
           * intros [[t0 [H1 H2]]|[<-|[]]].
             -- exists t0. split; [apply in_or_app; left; exact H1|exact H2].
@@ -905,7 +928,7 @@ Proof.
           assert (LU : forall g, lvi w' g /\ w_uris w' g <> None -> lvi w'' g /\ w_uris w'' g <> None).
           { intros g [H1 H2]. split; [eapply lvi_fext; eauto|].
             destruct (w_uris w' g) as [pg|] eqn:Eu; [|congruence]. rewrite (tp_uris0 g pg Eu). discriminate. }
-          split; [|split; [|split]].
+          split; [|split; [|split; [|split; [|split]]]].
           2:{ intros t0 g H. destruct (tp_rev_new0 t0 g H) as [H'|[->|H']].
               - destruct (RvN t0 g H') as [H2|H2]; [left; exact H2|right; apply LU; exact H2].
               - right. apply LU. exact Lt'.
@@ -916,6 +939,16 @@ Proof.
               - right. exact H'. }
           2:{ intros g H. destruct (tp_an_new0 g H) as [H'|H']; [|right; exact H'].
               destruct (AnN g H') as [H2|H2]; [left; exact H2|right; apply LU; exact H2]. }
+          2:{ destruct (is_nil (a_tdiags at')); [exact NDs|]. apply NoDup_snoc_gen; [exact NDs|].
+              intros Hin. destruct (Shp _ Hin) as [t' [H1 [H2 H3]]].
+              assert (path_of w5 t' = q) by (destruct H3 as [H3|H3]; [discriminate|injection H3 as H3; symmetry; exact H3]).
+              assert (t' = t) by (apply PInj; auto; congruence). subst t'. contradiction. }
+          2:{ intros d Hd. destruct (is_nil (a_tdiags at')).
+              - destruct (Shp d Hd) as [t' [H1 [H2 H3]]]. exists t'. split; [apply in_or_app; left; exact H1|auto].
+              - apply in_app_or in Hd. destruct Hd as [Hd|[<-|[]]].
+                + destruct (Shp d Hd) as [t' [H1 [H2 H3]]]. exists t'. split; [apply in_or_app; left; exact H1|auto].
+                + exists t. split; [apply in_or_app; right; left; reflexivity|]. split; [exact Htin|right].
+                  rewrite Pt5. reflexivity. }
           intros d. rewrite Enil.
           assert (Cd : In d (contrib cu w5 t) <-> (is_nil (expect_t cu M q) = false /\ d = DImpType q)).
           { rewrite Ct. unfold imp_diag. rewrite Cq, Ep. destruct (is_nil (expect_t cu M q)); cbn; intuition congruence. }
@@ -931,7 +964,7 @@ Proof.
             -- intros [t0 [H1 H2]]. apply in_app_or in H1. destruct H1 as [H1|[<-|[]]]; [left; eauto|].
                right. apply Cd in H2. destruct H2 as [_ ->]. left. reflexivity. }
     destruct HL as [w6 [idiags [Eloop HL]]].
-    destruct HL as [G6 [L6 [B6 [X6 [Af6 [If6 [Pend6 [TcO6 [Stab6 [Pres6 [Rv6 [Fl6 [Im6 [Ur6 [Pb6 [Lg6 [Dsc6 [RvN6 [FlN6 AnN6]]]]]]]]]]]]]]]]]]].
+    destruct HL as [G6 [L6 [B6 [X6 [Af6 [If6 [Pend6 [TcO6 [Stab6 [Pres6 [Rv6 [Fl6 [Im6 [Ur6 [Pb6 [Lg6 [Dsc6 [RvN6 [FlN6 [AnN6 [NDs6 Shp6]]]]]]]]]]]]]]]]]]]]].
     rewrite Eloop, Af6.
     destruct (finish_spec w6 f Typechecking src own idiags Af6) as [A8 [O8 [N8 [F8 [I8 [M8 [R8 [L8 [U8 [P8 Lg8]]]]]]]]]].
     set (w8 := complete_typechecking (add_tdiags w6 f idiags) f) in *.
@@ -982,6 +1015,12 @@ Proof.
            destruct (fp_tgt0 q Hq) as [t [T1 [T2 _]]]. exists t. split; [apply pick_in; exact T2|].
            pose proof (fp_link0 q) as Lq. rewrite T1 in Lq. destruct Lq as [c [Fc _]].
            unfold contrib, path_of. rewrite Fc. exact Hd.
+      * intros _. apply NoDup_app_intro; [| exact NDs6 |].
+        -- rewrite fp_own0. unfold own_diags. destruct (snd (reach cu (c_imports src))); [repeat constructor; intros []|].
+           destruct (is_terr src); repeat constructor. intros [].
+        -- intros d Hd Hi. destruct (Shp6 d Hi) as [t [_ [_ Ht]]]. rewrite fp_own0 in Hd. unfold own_diags in Hd.
+           destruct (snd (reach cu (c_imports src))); [destruct Hd as [<-|[]]; destruct Ht; discriminate|].
+           destruct (is_terr src); [destruct Hd as [<-|[]]; destruct Ht; discriminate|destruct Hd].
       * intros _ q Hq. destruct (fp_tgt0 q Hq) as [t [T1 [T2 [T3 [T4 _]]]]]. exists t.
         split; [rewrite Lv8; apply (fx_live _ _ X6); exact T1|].
         split; [apply Pres8; apply Pres6; exact T4|].
@@ -1075,6 +1114,7 @@ Proof.
     right. rewrite cl_rev0, cl_an0 by exact Hnt. auto.
   - intros x Hx. destruct (Nat.eq_dec x f) as [->|Hn]; [exact cl_imp_f0|].
     rewrite cl_an0 in Hx by exact Hn. rewrite cl_imp0 by exact Hn. auto.
+  - intros x. destruct (Nat.eq_dec x f) as [->|Hn]; [rewrite cl_imp_f0; constructor|rewrite cl_imp0 by exact Hn; auto].
 Qed.
 
 Lemma cleared_SInvP : forall P cu w f w',
@@ -1396,6 +1436,7 @@ Proof.
     + rewrite Fid in Hc1. inv Hc1. eauto.
     + exists c1. rewrite Fo by exact Hn. exact Hc1.
   - exact gp_none0.
+  - exact gp_nd0.
 Qed.
 
 Lemma update_file_spec : forall cu w p id c,
@@ -2183,7 +2224,7 @@ Lemma WInv_empty : WInv (cur disk no_bufs) no_bufs empty_world.
 Proof.
   constructor.
   - constructor.
-    + constructor; cbn; intros; try discriminate; try contradiction; try reflexivity; try (exfalso; congruence).
+    + constructor; cbn; intros; try discriminate; try contradiction; try reflexivity; try (exfalso; congruence); try constructor.
     + intros p. cbn. reflexivity.
     + intros p c H. cbn in H. eapply disk_resp; eauto.
     + intros x ax H. discriminate.
